@@ -5,6 +5,7 @@ import Rare.Spec.C17Atoi
 import Rare.Spec.C17Sel
 import Rare.Model.C17Pool
 import Rare.Model.C17Heap
+import Rare.Model.C17HeapI
 import Rare.Model.C17Extra
 /-!
 Ops of C17 (besides the shared `expr` op):
@@ -211,7 +212,9 @@ A case names a template by its helper SKELETON in prefix notation (`M` @map, `F`
 `BuildKey`.  Leaves are compiled by the model's compiler (they are pool-free), the helper structure is run by
 `C17Heap.ev` – real `Get`/overwrite/`Eval`/`Return` on a heap whose objects all hold garbage and point at
 themselves.  The driver also evaluates the spelled template through the pool-free model (`expr`) and answers
-`machine-model-disagree` unless both agree, and `pool-leak` unless the free list afterwards holds exactly the
+`machine-model-disagree` unless both agree, `interleaved-disagree` unless the interleaved machine
+(`Model/C17HeapI.lean`) under a busy interference (`envBusy`) gives the same value and ends with nothing checked
+out, and `pool-leak` unless the free list afterwards holds exactly the
 objects it held before plus fresh ones. -/
 
 inductive Sk where
@@ -282,6 +285,14 @@ def skTm : Sk → Option C17Heap.Tm
   | .for_ s c n => do let x ← skTm s; let y ← skTm c; let z ← skTm n; pure (.for_ x y z)
   | .len a => do let x ← skTm a; pure (.app1 lenFn x)
 
+/-- Other goroutines at a scheduling point, by the clock: they overwrite every object this evaluation has not
+    checked out, and in turn take an object from the pool / allocate one / leave the pool alone. -/
+def envBusy (h : C17HeapI.HeapI) : C17HeapI.HeapI :=
+  { h with
+    objs := fun n => if h.mine n then h.objs n else ⟨.obj n, [33], [63]⟩,
+    pool := if h.tick % 3 = 0 then h.pool.get.2
+            else if h.tick % 3 = 1 then { h.pool with next := h.pool.next + 1 } else h.pool }
+
 def heapm (size : Nat) (opt : String) (sk : Sk) (el ks : String) : String :=
   match skTm sk, decHexList el, decHexList ks with
   | some tm, some elems, some keys =>
@@ -293,6 +304,10 @@ def heapm (size : Nat) (opt : String) (sk : Sk) (el ks : String) : String :=
       let fresh := (List.range (h'.pool.next - h0.pool.next)).map (· + h0.pool.next)
       let want := (h0.pool.free ++ fresh).mergeSort
       if h'.pool.free.mergeSort ≠ want then "pool-leak"
+      else if (match C17HeapI.evI envBusy ctx (C17Heap.depth tm + 1) tm .root
+                  ⟨h0.pool, h0.objs, fun _ => false, 0⟩ with
+               | .ok (vi, hi) => vi ≠ v || (List.range hi.pool.next).any hi.mine
+               | .error _ => true) then "interleaved-disagree"
       else
         let viaModel := exprGuarded opt (Hex.enc (skArg sk).toUTF8.toList) el ks
         if valOf viaModel ≠ some v then s!"machine-model-disagree {viaModel}"
